@@ -77,7 +77,16 @@ def oracle_case(ops, meta, il):
         w = o.split()
         if w[0] in ("new", "newd", "newc") and l.startswith("ok "):
             idx[int(w[1])] = int(l.split()[1])
-    # paused stretches record nothing: the tape dumps emitted right after `pause` and right before `cont` agree
+    # paused stretches record nothing: the tape dumps emitted right after `pause` and right before `cont` agree, and no
+    # operation of a paused stretch may raise (values are computed exactly as when recording, nothing else happens)
+    paused = False
+    for i, o in enumerate(ops):
+        if o == "pause":
+            paused = True
+        elif o == "cont":
+            paused = False
+        elif paused and il[i].startswith("EXC"):
+            return "op %d (%s) raised %s while recording was paused" % (i, o, il[i][4:])
     last_pause_tape = None
     for i, o in enumerate(ops):
         if o == "pause":
@@ -154,7 +163,7 @@ def run_cases(ctx, exe, label, cases):
         il, ml = impl[pos:pos + len(ops)], model[pos:pos + len(ops)]
         pos += len(ops)
         if len(il) < len(ops):
-            ctx.violation("implementation stopped on a protocol history (%s): rc=%s %s" % (label, rc, err[-1200:]),
+            ctx.violation("implementation stopped on a protocol history (%s): rc=%s %s" % (label, rc, vcheck.san_summary(err)),
                           {"kind": "crash", "build": label, "ops": ops, "stderr": err[-3000:], "impl": il})
             break
         verdict = oracle_case(ops, meta, il)
